@@ -134,6 +134,12 @@ if __name__ == "__main__":
     try:
         code = main()
     finally:
+        try:
+            from harness import tmpfiles
+
+            tmpfiles.cleanup()
+        except Exception:  # noqa: BLE001
+            pass
         sys.stdout.flush()
         sys.stderr.flush()
         os._exit(code)
